@@ -105,12 +105,15 @@ def run_path(entry, path, direct, outlen):
     f = entry['mk']()
     pts = POINTS[entry['D']]
     evs = []
+    # single points are handed over in ONE buffer the caller keeps and overwrites in place between the calls (array or list, alternating per path)
+    buf = np.zeros(entry['D']) if len(path) % 2 == 0 else [0.0] * entry['D']
     for op, ids in path:
         e = {'op': op, 'pts': [int(i) for i in ids], 'raised': False, 'values_ok': True, 'shape_ok': True, 'size': 0}
         try:
             with impl.quiet(), impl.watchdog(30):
                 if op == 'single':
-                    r = f(pts[ids[0] - 1])
+                    buf[:] = list(pts[ids[0] - 1])
+                    r = f(buf)
                     r = np.asarray(r, dtype=float)
                     e['shape_ok'] = r.shape == (outlen,)
                     e['values_ok'] = e['shape_ok'] and bool(np.allclose(r, direct[ids[0] - 1], rtol=1e-13, atol=0))
